@@ -4,6 +4,7 @@ package main
 
 import (
 	"fmt"
+	"os"
 	"regexp"
 	"sort"
 	"strings"
@@ -51,11 +52,70 @@ func groupObligations(obs []*Obligation) []*ObGroup {
 	return out
 }
 
+// arraySyms collects array-sorted variables and UF names of t.
+func arraySyms(t *Term, out map[string]bool, seen map[int]bool) {
+	if seen[t.id] {
+		return
+	}
+	seen[t.id] = true
+	if t.Op == "var" && t.Sort.Kind == SArray {
+		out[t.Name] = true
+	}
+	if t.Op == "app" {
+		out["uf:"+t.Name] = true
+	}
+	for _, a := range t.Args {
+		arraySyms(a, out, seen)
+	}
+}
+
+// prunedQuery keeps the quantifier-free facts and only those quantified facts that share an array / UF
+// symbol with the claim.  Dropping hypotheses is sound; a non-unsat answer is re-checked with the full query.
+func prunedQuery(o *Obligation) (*Term, bool) {
+	cs := map[string]bool{}
+	arraySyms(o.Claim, cs, map[int]bool{})
+	dropped := false
+	var keep []*Term
+	for _, f := range o.PC {
+		if !hasQuant(f) {
+			keep = append(keep, f)
+			continue
+		}
+		fs := map[string]bool{}
+		arraySyms(f, fs, map[int]bool{})
+		share := false
+		for k := range fs {
+			if cs[k] {
+				share = true
+				break
+			}
+		}
+		if share {
+			keep = append(keep, f)
+		} else {
+			dropped = true
+		}
+	}
+	return And(append(keep, Not(o.Claim))...), dropped
+}
+
 // query builds the refutation query for the group: OR_i (pc_i /\ not claim_i).
 func (g *ObGroup) query() *Term {
 	var ds []*Term
 	for _, o := range g.Instances {
 		if o.Claim.IsTrue() {
+			continue
+		}
+		if g.Canary {
+			// reachability canaries use the quantifier-free part of the path condition: a contradiction there is
+			// what a vacuous contract looks like, and satisfiability of quantified facts is not decidable in time
+			var qf []*Term
+			for _, f := range o.PC {
+				if !hasQuant(f) {
+					qf = append(qf, f)
+				}
+			}
+			ds = append(ds, And(qf...))
 			continue
 		}
 		ds = append(ds, And(append(append([]*Term(nil), o.PC...), Not(o.Claim))...))
@@ -78,6 +138,7 @@ func discharge(groups []*ObGroup, opt DischargeOpts) {
 		script string
 		gv     []*Term
 		sub    int // >0: one instance of a split group
+		pruned string
 	}
 	var jobs []job
 	split := map[*ObGroup]int{}
@@ -119,7 +180,11 @@ func discharge(groups []*ObGroup, opt DischargeOpts) {
 				qi := And(append(append([]*Term(nil), o.PC...), Not(o.Claim))...)
 				sc := Script([]*Term{qi}, gv, "", TS.Defs)
 				g.SMTSize += len(sc)
-				jobs = append(jobs, job{g, sc, gv, k})
+				pr := ""
+				if pq, dropped := prunedQuery(o); dropped {
+					pr = Script([]*Term{pq}, nil, "", TS.Defs)
+				}
+				jobs = append(jobs, job{g, sc, gv, k, pr})
 			}
 			split[g] = k
 			g.Status = "proved"
@@ -127,7 +192,17 @@ func discharge(groups []*ObGroup, opt DischargeOpts) {
 		}
 		script := Script([]*Term{q}, gv, "", TS.Defs)
 		g.SMTSize = len(script)
-		jobs = append(jobs, job{g, script, gv, 0})
+		pr := ""
+		if !g.Canary && nt == 1 {
+			for _, o := range g.Instances {
+				if !o.Claim.IsTrue() {
+					if pq, dropped := prunedQuery(o); dropped {
+						pr = Script([]*Term{pq}, nil, "", TS.Defs)
+					}
+				}
+			}
+		}
+		jobs = append(jobs, job{g, script, gv, 0, pr})
 	}
 	var mu sync.Mutex
 	par := opt.Par
@@ -149,7 +224,28 @@ func discharge(groups []*ObGroup, opt DischargeOpts) {
 					to = 3 * time.Second
 				}
 			}
-			r := Solve(j.script, to, opt.Seed, fmt.Sprintf("q%d", i), opt.NeedTwo && !j.g.Canary)
+			if d := os.Getenv("GOVC_DUMPALL"); d != "" {
+				os.WriteFile(fmt.Sprintf("%s/%s-%d.smt2", d, sanitize(j.g.Name), j.sub), []byte(j.script), 0o644)
+				if j.pruned != "" {
+					os.WriteFile(fmt.Sprintf("%s/%s-%d.pruned.smt2", d, sanitize(j.g.Name), j.sub), []byte(j.pruned), 0o644)
+				}
+			}
+			var r SolverResult
+			if j.pruned != "" {
+				pt := to / 3
+				if pt < 3*time.Second {
+					pt = 3 * time.Second
+				}
+				r = Solve(j.pruned, pt, opt.Seed, fmt.Sprintf("q%dp", i), opt.NeedTwo)
+				if r.Status == "unsat" {
+					r.Solver += "[relevant-facts]"
+				}
+			}
+			if r.Status != "unsat" {
+				r2 := Solve(j.script, to, opt.Seed, fmt.Sprintf("q%d", i), opt.NeedTwo && !j.g.Canary)
+				r2.Secs += r.Secs
+				r = r2
+			}
 			if j.sub > 0 {
 				mu.Lock()
 				defer mu.Unlock()
@@ -175,6 +271,9 @@ func discharge(groups []*ObGroup, opt DischargeOpts) {
 						g.Status = "unknown"
 						g.RawOut = r.Output
 						g.Script = j.script
+						if os.Getenv("GOVC_KEEP") != "" {
+							os.WriteFile(fmt.Sprintf("/tmp/govc-unknown-%s-%d.smt2", sanitize(g.Name), j.sub), []byte(j.script), 0o644)
+						}
 					}
 				}
 				return
